@@ -73,7 +73,8 @@ META.update({
 CHECKS["C13"] = dict(parts=[part("clean-termination", "gw", "TestC13", 3000, 150_000),
                             part("dial-failure", "gw", "TestC13Dial", 16, 200, qshards=1, tshards=2)])
 CHECKS["C14"] = dict(parts=[part("will-cancelled-only-by-disconnect", "gw", "TestC14", 3000, 150_000)])
-CHECKS["C23"] = dict(parts=[part("gateway-datagrams-wellformed", "gw", "TestC23GW", 3000, 150_000)])
+CHECKS["C23"] = dict(parts=[part("gateway-datagrams-wellformed", "gw", "TestC23GW", 3000, 150_000),
+                            part("client-datagrams-wellformed", "cl", "TestC23Client", 1000, 100_000)])
 CHECKS["C24"] = dict(parts=[part("mqtt-valid", "gw", "TestC24", 4000, 250_000)])
 META.update({
     "C13": dict(
@@ -107,10 +108,12 @@ META.update({
         text="Exploration: generated session prefixes after which the client is silent forever, against a broker that enforces the MQTT keep-alive and the missing-CONNECT timeout on the virtual clock; the oracle bounds the time from the client's last packet to the end of the session per state (connecting, active, asleep, woken, reconnected).",
         note=_GW_NOTE + " 'Never' is observed as 'not within the bound plus 3 K + 2 s'.", technique="PBT with a time-enforcing model broker on a virtual clock; bounded-liveness oracle"),
 })
-CHECKS["C06"] = dict(parts=[part("gateway-exchanges-independent", "gw", "TestC06GW", 3000, 200_000)])
+CHECKS["C06"] = dict(parts=[part("gateway-exchanges-independent", "gw", "TestC06GW", 3000, 200_000),
+                            part("client-exchanges-independent", "cl", "TestC06Client", 3000, 200_000)])
 CHECKS["C15"] = dict(parts=[part("sessions-isolated", "gw", "TestC15", 1500, 100_000)])
 CHECKS["C25"] = dict(parts=[part("hostile-client-to-gateway", "gw", "TestC25Client", 3000, 200_000, death_is_violation=True, death_kind="gateway-session-panic/hostile-client"),
-                            part("hostile-broker-to-gateway", "gw", "TestC25Broker", 3000, 200_000, death_is_violation=True, death_kind="gateway-session-panic/hostile-broker")])
+                            part("hostile-broker-to-gateway", "gw", "TestC25Broker", 3000, 200_000, death_is_violation=True, death_kind="gateway-session-panic/hostile-broker"),
+                            part("hostile-gateway-to-client", "cl", "TestC25Gateway", 3000, 200_000, death_is_violation=True, death_kind="client-panic/hostile-gateway")])
 META.update({
     "C06": dict(
         text="Exploration: 2-5 concurrently open exchanges of both directions whose message IDs coincide (client pool {1,2,0xFFFE,0xFFFF} against the broker's IDs and the gateway's own REGISTER IDs), with the opening packets and every acknowledgement step played in a drawn order by scripted peers that compute each packet from what they received; oracle: every exchange completes with its own acknowledgement carrying the right IDs. A second part does the same against the client library.",
@@ -145,4 +148,10 @@ META.update({
     "C33": dict(
         text="Exploration: real client with KeepAlive 2-30 s against a scripted gateway that drops selected ping transmissions within the retry budget; API calls (Sleep, Disconnect, Publish, Subscribe, Register, reconnect) at times drawn relative to the keep-alive period (exact tick, +-1 ns, +-1 ms, mid-period); a client-state model replayed over the timeline checks: consecutive keep-alive PINGREQs at most KeepAlive apart while active, none (original or retransmitted) while asleep or disconnected, and every concurrent call returns nil.",
         note=_CL_NOTE + " Events at exactly the instant of a state change are not ordered by the property and are tolerated.", technique="timed stateful PBT on a virtual clock with a client-state reference model"),
+})
+CHECKS["C31"] = dict(parts=[part("client-auth-after-connect", "cl", "TestC31Client", 2000, 100_000)])
+META.update({
+    "C31": dict(
+        text="Exploration: (b) the real client library with/without a configured user, will on/off, a gateway that ignores 0..RetryCount+1 CONNECTs, repeated Connect calls and further API traffic: no AUTH datagram ever without a user; with a user every CONNECT datagram (first and retried) is immediately followed by an AUTH carrying exactly the configured credentials. (a) the three command-line tools over the exhaustive flag/environment matrix are checked by the part cli-refuses-plaintext.",
+        note=_CL_NOTE, technique="PBT over client configurations and connect-retry schedules; exhaustive enumeration of the CLI flag matrix"),
 })
